@@ -124,18 +124,28 @@ func runC07(c *core.Ctx) {
 		{"round-change-broadcast", "ok(" + iN + "Instance.Broadcast(p0, p1, " + iN + "CreateRoundChange(p0.State, p0.config, p2, p3)#0))", ""},
 	})
 	urc := inst + "uponRoundChange"
+	// the function computing the round to jump to is found by its role (applied to the round
+	// changes returned by hasReceivedPartialQuorum, result passed as the new round), not by name
+	var minFn *ssa.Function
+	minCall := iN + "minRound(" + iN + "hasReceivedPartialQuorum(p0.State, p4)#1)"
+	if f := fn(c, "C07-R3", urc); f != nil {
+		for _, s := range callsIn(f, iN+"Instance.uponChangeRoundPartialQuorum") {
+			arg := s.Arg(c, 2)
+			n := arg.String()
+			h, _ := arg.Fn.(*ssa.Function)
+			isMin := arg.K == "call" && h != nil && h.Pkg == f.Pkg && len(arg.A) == 1 && arg.A[0].String() == iN+"hasReceivedPartialQuorum(p0.State, p4)#1"
+			c.Decide(isMin, "C07-R3", "uponRoundChange|jump to minRound", c.P.Pos(s.Instr.Pos()), n, "the operator jumps to "+n+" instead of the minimum round of the f+1 round changes")
+			if isMin {
+				minFn, minCall = h, n
+			}
+		}
+	}
 	k = atCalls(c, "C07-R3", urc, iN+"Instance.uponChangeRoundPartialQuorum", []Req{
 		{"partial-quorum", "T(" + iN + "hasReceivedPartialQuorum(p0.State, p4)#0)", "f+1 round changes for higher rounds pull the operator forward"},
-		{"higher-round", "lt(p0.State.Round, " + iN + "minRound(" + iN + "hasReceivedPartialQuorum(p0.State, p4)#1))", "only forward"},
+		{"higher-round", "lt(p0.State.Round, " + minCall + ")", "only forward"},
 		{"no-leader-justification", "isnil(" + iN + "hasReceivedProposalJustificationForLeadingRound(*)#0)", ""},
 	})
 	c.Min("C07-R3", k, 1, "partial-quorum jump in uponRoundChange")
-	if f := fn(c, "C07-R3", urc); f != nil {
-		for _, s := range callsIn(f, iN+"Instance.uponChangeRoundPartialQuorum") {
-			n := s.Arg(c, 2).String()
-			c.Decide(n == iN+"minRound("+iN+"hasReceivedPartialQuorum(p0.State, p4)#1)", "C07-R3", "uponRoundChange|jump to minRound", c.P.Pos(s.Instr.Pos()), n, "the operator jumps to "+n+" instead of the minimum round of the f+1 round changes")
-		}
-	}
 	ensures(c, "C07-R3", instPkg+".hasReceivedPartialQuorum", "r0=true", []Req{
 		{"f+1", "T(ssv-spec/qbft.HasPartialQuorum(p0.Share, *))", "the jump needs f+1 distinct signers"},
 	})
@@ -197,7 +207,10 @@ func runC07(c *core.Ctx) {
 	// the round jumped to is the MINIMUM of the f+1 higher rounds: in minRound the running value is
 	// replaced only when it is unset or strictly above the candidate (a maximum would let one
 	// Byzantine round change for a far round drag every correct operator past the cut-off round)
-	if f := fn(c, "C07-R3", instPkg+".minRound"); f != nil {
+	if minFn == nil {
+		c.Undischarged("C07-R3", "minRound|body", "the function computing the round to jump to was not identified in uponRoundChange")
+	} else {
+		f := minFn
 		a := c.E.Analyze(f)
 		n := 0
 		for _, b := range f.Blocks {
